@@ -1331,6 +1331,70 @@ class SymIO(object):
         self.close()
 
 
+class _SxIOModule(object):
+    """Stands in for module io inside lifted modules: BytesIO over symbolic bytes becomes SymIO."""
+
+    def __getattr__(self, name):
+        import io as _io
+        return getattr(_io, name)
+
+    @staticmethod
+    def BytesIO(initial=b''):
+        import io as _io
+        if _isinstance(initial, (SBytes, SByteArray, SView)) and not _all_concrete(initial._get_items()):
+            return SymIO(initial)
+        if _isinstance(initial, (SBytes, SByteArray, SView)):
+            return _HybridIO(_bytes(initial._get_items()))
+        return _HybridIO(initial)
+
+
+class _HybridIO(object):
+    """BytesIO that starts concrete and switches to a SymIO when symbolic bytes are written."""
+
+    def __init__(self, initial=b''):
+        import io as _io
+        self._c = _io.BytesIO(initial)
+        self._s = None
+
+    def _sym(self):
+        if self._s is None:
+            self._s = SymIO(self._c.getvalue())
+            self._s.seek(self._c.tell())
+        return self._s
+
+    def write(self, data):
+        if self._s is None and not (_isinstance(data, (SBytes, SByteArray, SView))
+                                    and not _all_concrete(data._get_items())):
+            if _isinstance(data, (SBytes, SByteArray, SView)):
+                data = _bytes(data._get_items())
+            return self._c.write(data)
+        return self._sym().write(data)
+
+    def seek(self, pos, whence=0):
+        if self._s is None:
+            if _isinstance(pos, SInt):
+                pos = operator.index(pos)
+            return self._c.seek(pos, whence)
+        return self._s.seek(pos, whence)
+
+    def __getattr__(self, name):
+        if name.startswith('__'):
+            raise AttributeError(name)
+        return getattr(self._c if self._s is None else self._s, name)
+
+    def __enter__(self):
+        return self
+
+    def __exit__(self, *a):
+        self.close()
+
+    def __iter__(self):
+        return iter(self._c if self._s is None else self._s)
+
+
+sx_io = _SxIOModule()
+
+
 # ----------------------------------------------------------------------------------------------
 # struct shim
 
